@@ -453,29 +453,63 @@ Section BuilderP.
 
   (* ---------- simulation ---------- *)
   (* the step from s to s' only allocated, keeps the stack invariant and allocated exactly the new nodes *)
-  Definition step_ok (s0 : state) (srcs : list tree) (s : state) (Win : N) (s' : state) (st' : list ent) : Prop :=
-    alloc_only s s' /\ stk_inv s0 s' srcs st' /\ Npos (next s') + Win = Npos (next s) + wt (map shp st').
+  (* retention: a tree held by the stack (as a subtree of an Arced entry or of a Node entry) stays held;
+     only the open packed leaf, an Unarced non-Node entry, is ever replaced *)
+  Definition isnode (t : tree) : Prop := match t with Node _ _ _ => True | _ => False end.
+  Definition held (st : list ent) (u : tree) : Prop :=
+    exists e, In e st /\ subt u (snd e) /\ (fst e = true \/ isnode (snd e)).
+  Definition keeps (st st' : list ent) : Prop := forall u, held st u -> held st' u.
+  Lemma keeps_refl st : keeps st st. Proof. intros u Hu. exact Hu. Qed.
+  Lemma keeps_trans st1 st2 st3 : keeps st1 st2 -> keeps st2 st3 -> keeps st1 st3.
+  Proof. intros H1 H2 u Hu. auto. Qed.
+  Lemma keeps_incl st st' : incl st st' -> keeps st st'.
+  Proof. intros Hi u (e & He & Hs). exists e. split; [apply Hi; exact He|exact Hs]. Qed.
+  Lemma keeps_cons e st : keeps st (e :: st).
+  Proof. apply keeps_incl. intros x Hx. right. exact Hx. Qed.
+  Lemma keeps_app (A B B' : list ent) : keeps B B' -> keeps (A ++ B) (A ++ B').
+  Proof.
+    intros Hk u (e & He & Hs). apply in_app_or in He. destruct He as [He|He].
+    - exists e. split; [apply in_or_app; left; exact He|exact Hs].
+    - destruct (Hk u (ex_intro _ e (conj He Hs))) as (e' & He' & Hs'). exists e'. split; [apply in_or_app; right; exact He'|exact Hs'].
+  Qed.
+  Lemma keeps_merge f1 (r : tree) f2 (l : tree) n st : keeps ((f1, r) :: (f2, l) :: st) ((false, Node n l r) :: st).
+  Proof.
+    intros u (e & He & Hs & Hfl). destruct He as [<-|[<-|He]]; cbn [fst snd] in *.
+    - exists (false, Node n l r). split; [left; reflexivity|]. cbn [fst snd subt isnode]. tauto.
+    - exists (false, Node n l r). split; [left; reflexivity|]. cbn [fst snd subt isnode]. tauto.
+    - exists e. split; [right; exact He|tauto].
+  Qed.
+  Lemma keeps_packed i vs vs' st : keeps ((false, Packed i vs) :: st) ((false, Packed i vs') :: st).
+  Proof.
+    intros u (e & He & Hs & Hfl). destruct He as [<-|He]; cbn [fst snd isnode] in *.
+    - destruct Hfl as [Hfl|[]]. discriminate.
+    - exists e. split; [right; exact He|tauto].
+  Qed.
+
+  Definition step_ok (s0 : state) (srcs : list tree) (s : state) (Win : N) (ist : list ent) (s' : state) (st' : list ent) : Prop :=
+    alloc_only s s' /\ stk_inv s0 s' srcs st' /\ Npos (next s') + Win = Npos (next s) + wt (map shp st') /\
+    keeps ist st'.
 
   Lemma merge_n_sim R s0 srcs n : forall top st s,
     stk_inv s0 s srcs ((false, top) :: st) ->
     wp R (merge_n n top st) (fun o s' =>
       match pmerge_n n (shape top) (map shp st) with
       | Ok (pt, pst) => exists t st', o = Ok (t, st') /\ shape t = pt /\ map shp st' = pst /\
-                          step_ok s0 srcs s (wt (map shp ((false, top) :: st))) s' ((false, t) :: st')
+                          step_ok s0 srcs s (wt (map shp ((false, top) :: st))) ((false, top) :: st) s' ((false, t) :: st')
       | Err e => o = Err e
       | Panic c => o = Panic c
       end) s.
   Proof.
     induction n as [|n IH]; intros top st s Hinv; cbn [merge_n pmerge_n].
     - cbn [wp]. exists top, st. split; [reflexivity|]. split; [reflexivity|]. split; [reflexivity|].
-      split; [apply ao_refl|]. split; [exact Hinv|reflexivity].
+      split; [apply ao_refl|]. split; [exact Hinv|]. split; [reflexivity|apply keeps_refl].
     - destruct st as [|[f lft] st']; cbn [map shp fst snd]; [reflexivity|].
       cbn [bind fresh wp]. eapply wp_mono; [|apply IH].
       + intros o s'. cbn [shape]. destruct (pmerge_n n _ _) as [[pt pst]|e|c]; auto.
-        intros (t & st2 & -> & Ht & Hst & Hao & Hinv' & Hcnt). exists t, st2.
+        intros (t & st2 & -> & Ht & Hst & Hao & Hinv' & Hcnt & Hk). exists t, st2.
         split; [reflexivity|]. split; [exact Ht|]. split; [exact Hst|].
         split; [apply ao_bump_l, Hao|]. split; [exact Hinv'|].
-        revert Hcnt. wt_simp. lia.
+        split; [revert Hcnt; wt_simp; lia|]. eapply keeps_trans; [apply keeps_merge|exact Hk].
       + eapply stk_merge; exact Hinv.
   Qed.
 
@@ -483,19 +517,19 @@ Section BuilderP.
     stk_inv s0 s srcs (top :: st) ->
     wp R (merge_avail n top st) (fun o s' =>
       exists t st', o = Ok (t, st') /\ (shp t, map shp st') = pmerge_avail n (shp top) (map shp st) /\
-                    step_ok s0 srcs s (wt (map shp (top :: st))) s' (t :: st')) s.
+                    step_ok s0 srcs s (wt (map shp (top :: st))) (top :: st) s' (t :: st')) s.
   Proof.
     induction n as [|n IH]; intros top st s Hinv; cbn [merge_avail pmerge_avail].
     - cbn [wp]. exists top, st. split; [reflexivity|]. split; [reflexivity|].
-      split; [apply ao_refl|]. split; [exact Hinv|reflexivity].
+      split; [apply ao_refl|]. split; [exact Hinv|]. split; [reflexivity|apply keeps_refl].
     - destruct top as [ft tt]. destruct st as [|[f lft] st']; cbn [map shp fst snd].
       + cbn [wp]. exists (ft, tt), []. split; [reflexivity|]. split; [reflexivity|].
-        split; [apply ao_refl|]. split; [exact Hinv|reflexivity].
+        split; [apply ao_refl|]. split; [exact Hinv|]. split; [reflexivity|apply keeps_refl].
       + cbn [bind fresh wp]. eapply wp_mono; [|apply IH].
-        * intros o s'. intros (t & st2 & -> & Hsh & Hao & Hinv' & Hcnt). exists t, st2.
+        * intros o s'. intros (t & st2 & -> & Hsh & Hao & Hinv' & Hcnt & Hk). exists t, st2.
           split; [reflexivity|]. split; [exact Hsh|].
           split; [apply ao_bump_l, Hao|]. split; [exact Hinv'|].
-          revert Hcnt. wt_simp. lia.
+          split; [revert Hcnt; wt_simp; lia|]. eapply keeps_trans; [apply keeps_merge|exact Hk].
         * eapply stk_merge; exact Hinv.
   Qed.
 
@@ -503,31 +537,32 @@ Section BuilderP.
     stk_inv s0 s srcs st ->
     wp R (merge_up ek n i x st er el) (fun o s' =>
       match pmerge_up n i x (map shp st) er el with
-      | Ok pst => exists st', o = Ok st' /\ map shp st' = pst /\ step_ok s0 srcs s (wt (map shp st)) s' st'
+      | Ok pst => exists st', o = Ok st' /\ map shp st' = pst /\ step_ok s0 srcs s (wt (map shp st)) st s' st'
       | Err e => o = Err e
       | Panic c => o = Panic c
       end) s.
   Proof.
     induction n as [|n IH]; intros i st s Hinv; cbn [merge_up pmerge_up].
     - cbn [wp]. exists st. split; [reflexivity|]. split; [reflexivity|].
-      split; [apply ao_refl|]. split; [exact Hinv|reflexivity].
+      split; [apply ao_refl|]. split; [exact Hinv|]. split; [reflexivity|apply keeps_refl].
     - destruct (N.testbit x (N.of_nat (i + pd))).
       + destruct st as [|[f1 rgt] [|[f2 lft] st']]; cbn [map shp fst snd]; [reflexivity|reflexivity|].
         cbn [bind fresh wp]. eapply wp_mono; [|apply IH].
         * intros o s'. cbn [map shp fst snd shape]. destruct (pmerge_up n _ _ _ _ _) as [pst|e|c]; auto.
-          intros (st2 & -> & Hsh & Hao & Hinv' & Hcnt). exists st2.
+          intros (st2 & -> & Hsh & Hao & Hinv' & Hcnt & Hk). exists st2.
           split; [reflexivity|]. split; [exact Hsh|].
           split; [apply ao_bump_l, Hao|]. split; [exact Hinv'|].
-          revert Hcnt. wt_simp. lia.
+          split; [revert Hcnt; wt_simp; lia|]. eapply keeps_trans; [apply keeps_merge|exact Hk].
         * eapply stk_merge; exact Hinv.
       + cbn [wp]. exists st. split; [reflexivity|]. split; [reflexivity|].
-        split; [apply ao_refl|]. split; [exact Hinv|reflexivity].
+        split; [apply ao_refl|]. split; [exact Hinv|]. split; [reflexivity|apply keeps_refl].
   Qed.
 
 
-  Lemma push_tail_sim R s0 srcs (b : builder T) top st s (W : N) s1 :
+  Lemma push_tail_sim R s0 srcs (b : builder T) top st s (W : N) (ist : list ent) s1 :
     stk_inv s0 s1 srcs ((false, top) :: st) -> alloc_only s s1 ->
     Npos (next s1) + W = Npos (next s) + wt (map shp ((false, top) :: st)) ->
+    keeps ist ((false, top) :: st) ->
     wp R ('(top', st') <- merge_n (tz (blength b + 1) - pd) top st ;;
           Ret {| bstack := (false, top') :: st'; bdepth := bdepth b; blevel := blevel b;
                  blength := blength b + 1; bcap := bcap b |})
@@ -535,16 +570,16 @@ Section BuilderP.
         match obind (pmerge_n (tz (blength b + 1) - pd) (shape top) (map shp st)) (fun '(top', st') =>
               Ok {| pstack := (false, top') :: st'; pdepth := bdepth b; plevel := blevel b;
                     plength := blength b + 1; pcap := bcap b |}) with
-        | Ok pb' => exists b', o = Ok b' /\ shb b' = pb' /\ step_ok s0 srcs s W s' (bstack b')
+        | Ok pb' => exists b', o = Ok b' /\ shb b' = pb' /\ step_ok s0 srcs s W ist s' (bstack b')
         | Err e => o = Err e
         | Panic c => o = Panic c
         end) s1.
   Proof.
-    intros Hinv Hao Hcnt. apply wp_bind. eapply wp_mono; [|apply merge_n_sim; exact Hinv].
+    intros Hinv Hao Hcnt Hkp. apply wp_bind. eapply wp_mono; [|apply merge_n_sim; exact Hinv].
     intros o s'. destruct (pmerge_n _ _ _) as [[pt pst]|e|c]; cbn [obind lift].
-    - intros (t & st2 & -> & Ht & Hst & Hao' & Hinv' & Hcnt'). cbn [lift wp].
+    - intros (t & st2 & -> & Ht & Hst & Hao' & Hinv' & Hcnt' & Hk'). cbn [lift wp].
       eexists. split; [reflexivity|]. split; [unfold shb; cbn [bstack bdepth blevel blength bcap map shp fst snd]; now rewrite Ht, Hst|].
-      cbn [bstack]. split; [eapply ao_trans; eauto|]. split; [exact Hinv'|]. lia.
+      cbn [bstack]. split; [eapply ao_trans; eauto|]. split; [exact Hinv'|]. split; [lia|eapply keeps_trans; eauto].
     - intros ->. reflexivity.
     - intros ->. reflexivity.
   Qed.
@@ -553,7 +588,7 @@ Section BuilderP.
     stk_inv s0 s srcs (bstack b) ->
     wp R (builder_push ek b v) (fun o s' =>
       match ppush (shb b) v with
-      | Ok pb' => exists b', o = Ok b' /\ shb b' = pb' /\ step_ok s0 srcs s (wt (pstack (shb b))) s' (bstack b')
+      | Ok pb' => exists b', o = Ok b' /\ shb b' = pb' /\ step_ok s0 srcs s (wt (pstack (shb b))) (bstack b) s' (bstack b')
       | Err e => o = Err e
       | Panic c => o = Panic c
       end) s.
@@ -566,29 +601,35 @@ Section BuilderP.
         * apply stk_push_atom; [exact Hinv|exact I|reflexivity].
         * apply ao_bump.
         * wt_simp. lia.
+        * apply keeps_cons.
       + destruct (bstack b) as [|[[|] [i0 v0|i0 vs|i0 l0 r0|i0 d0]] st] eqn:Est; cbn [map shp fst snd shape bind wp obind]; try reflexivity.
         destruct (lenN vs =? pf); cbn [bind wp obind]; [reflexivity|].
         apply push_tail_sim.
         * eapply stk_packed_upd; exact Hinv.
         * apply ao_refl.
         * wt_simp. lia.
+        * apply keeps_packed.
     - cbn [bind fresh wp obind]. apply push_tail_sim.
       + apply stk_push_atom; [exact Hinv|exact I|reflexivity].
       + apply ao_bump.
       + wt_simp. lia.
+      + apply keeps_cons.
   Qed.
 
 
-  Lemma step_trans s0 srcs s W s1 st1 s2 st2 :
-    step_ok s0 srcs s W s1 st1 -> step_ok s0 srcs s1 (wt (map shp st1)) s2 st2 -> step_ok s0 srcs s W s2 st2.
-  Proof. intros (A1 & I1 & C1) (A2 & I2 & C2). split; [eapply ao_trans; eauto|]. split; [exact I2|lia]. Qed.
+  Lemma step_trans s0 srcs s W ist s1 st1 s2 st2 :
+    step_ok s0 srcs s W ist s1 st1 -> step_ok s0 srcs s1 (wt (map shp st1)) st1 s2 st2 -> step_ok s0 srcs s W ist s2 st2.
+  Proof.
+    intros (A1 & I1 & C1 & K1) (A2 & I2 & C2 & K2). split; [eapply ao_trans; eauto|]. split; [exact I2|].
+    split; [lia|eapply keeps_trans; eauto].
+  Qed.
 
   Lemma push_node_sim R s0 srcs (b : builder T) node len s :
     stk_inv s0 s srcs (bstack b) -> In node srcs ->
     wp R (builder_push_node ek b node len) (fun o s' =>
       match ppush_node (shb b) (shape node) len with
       | Ok pb' => exists b', o = Ok b' /\ shb b' = pb' /\
-                    step_ok s0 srcs s (snodes (shape node) + wt (pstack (shb b))) s' (bstack b')
+                    step_ok s0 srcs s (snodes (shape node) + wt (pstack (shb b))) ((true, node) :: bstack b) s' (bstack b')
       | Err e => o = Err e
       | Panic c => o = Panic c
       end) s.
@@ -608,7 +649,7 @@ Section BuilderP.
     stk_inv s0 s srcs st ->
     wp R (finish_loop ek fuel b lv next st) (fun o s' =>
       match pfinish_loop fuel (bcap b) (bdepth b) lv next (map shp st) with
-      | Ok pst => exists st', o = Ok st' /\ map shp st' = pst /\ step_ok s0 srcs s (wt (map shp st)) s' st'
+      | Ok pst => exists st', o = Ok st' /\ map shp st' = pst /\ step_ok s0 srcs s (wt (map shp st)) st s' st'
       | Err e => o = Err e
       | Panic c => o = Panic c
       end) s.
@@ -616,10 +657,10 @@ Section BuilderP.
     induction fuel as [|fuel IH]; intros nx st s Hinv; cbn [finish_loop pfinish_loop].
     - destruct (_ =? bcap b); [|reflexivity].
       cbn [wp]. exists st. split; [reflexivity|]. split; [reflexivity|].
-      split; [apply ao_refl|]. split; [exact Hinv|reflexivity].
+      split; [apply ao_refl|]. split; [exact Hinv|]. split; [reflexivity|apply keeps_refl].
     - destruct (_ =? bcap b).
       { cbn [wp]. exists st. split; [reflexivity|]. split; [reflexivity|].
-        split; [apply ao_refl|]. split; [exact Hinv|reflexivity]. }
+        split; [apply ao_refl|]. split; [exact Hinv|]. split; [reflexivity|apply keeps_refl]. }
       destruct st as [|[f top] st']; cbn [map shp]; [reflexivity|].
       cbn [bind fresh wp]. apply wp_bind. eapply wp_mono; [|apply merge_up_sim with (s0 := s0) (srcs := srcs)].
       + intros o s1. cbn [map shp shape]. destruct (pmerge_up _ _ _ _ _ _) as [pst|e|c]; cbn [obind];
@@ -629,9 +670,11 @@ Section BuilderP.
         eapply wp_mono; [|apply IH; apply Hstep1].
         intros o s2. destruct (pfinish_loop _ _ _ _ _ _) as [pst2|e|c]; auto.
         intros (st3 & -> & Hsh3 & Hstep2). exists st3. split; [reflexivity|]. split; [exact Hsh3|].
-        pose proof (step_trans _ _ _ _ _ _ _ _ Hstep1 Hstep2) as (A & I' & C).
+        pose proof (step_trans _ _ _ _ _ _ _ _ _ Hstep1 Hstep2) as (A & I' & C & K).
         split; [apply ao_bump_l, ao_bump_l, A|]. split; [exact I'|].
-        revert C. wt_simp. lia.
+        split; [revert C; wt_simp; lia|].
+        eapply keeps_trans; [apply (keeps_cons (false, Zero (next s) (tz nx + lv - pd)))|].
+        eapply keeps_trans; [apply keeps_merge|exact K].
       + apply (stk_merge s0 (bump s) srcs false (Zero (next s) _) f top st').
         apply stk_push_atom; [exact Hinv|exact I|reflexivity].
   Qed.
@@ -649,7 +692,7 @@ Section BuilderP.
       (fun o s' =>
         match pfinish_pre (shb b) nx with
         | Ok (n1, pst) => exists st1, o = Ok (n1, st1) /\ map shp st1 = pst /\
-                            step_ok s0 srcs s (wt (map shp (bstack b))) s' st1
+                            step_ok s0 srcs s (wt (map shp (bstack b))) (bstack b) s' st1
         | Err e => o = Err e
         | Panic c => o = Panic c
         end) s.
@@ -657,9 +700,9 @@ Section BuilderP.
     intros Hinv. unfold pfinish_pre. cbn [shb plength pcap pstack pdepth plevel].
     assert (Hret: forall n1 : N, wp R (Ret (n1, bstack b)) (fun o s' =>
               exists st1, o = Ok (n1, st1) /\ map shp st1 = map shp (bstack b) /\
-                          step_ok s0 srcs s (wt (map shp (bstack b))) s' st1) s).
+                          step_ok s0 srcs s (wt (map shp (bstack b))) (bstack b) s' st1) s).
     { intros n1. cbn [wp]. eexists. split; [reflexivity|]. split; [reflexivity|].
-      split; [apply ao_refl|]. split; [exact Hinv|reflexivity]. }
+      split; [apply ao_refl|]. split; [exact Hinv|]. split; [reflexivity|apply keeps_refl]. }
     destruct (is_packed ek); [|apply Hret].
     cbv zeta. destruct ((0 <? _) && _); [|apply Hret].
     apply wp_bind. eapply wp_mono; [|apply merge_up_sim; exact Hinv].
@@ -673,7 +716,7 @@ Section BuilderP.
     wp R (builder_finish ek b) (fun o s' =>
       match pfinish (shb b) with
       | Ok (pt, d, n) => exists f t, o = Ok (t, d, n) /\ shape t = pt /\
-                           step_ok s0 srcs s (wt (pstack (shb b))) s' [(f, t)]
+                           step_ok s0 srcs s (wt (pstack (shb b))) (bstack b) s' [(f, t)]
       | Err e => o = Err e
       | Panic c => o = Panic c
       end) s.
@@ -684,7 +727,7 @@ Section BuilderP.
       cbn [shb pdepth]. split; [reflexivity|]. split; [reflexivity|].
       split; [apply ao_bump|]. split.
       + apply stk_push_atom; [exact Hinv|exact I|reflexivity].
-      + wt_simp. cbn [wt fold_right]. lia.
+      + split; [wt_simp; cbn [wt fold_right]; lia|apply keeps_cons].
     - rewrite <- Est in *. unfold pfinish_ne. cbn [shb plength pcap pstack pdepth plevel].
       destruct (64 <=? blevel b); [reflexivity|].
       apply wp_bind. eapply wp_mono; [|apply finish_pre_sim; exact Hinv].
@@ -696,23 +739,24 @@ Section BuilderP.
       intros o s2. destruct (pfinish_loop _ _ _ _ _ _) as [pst2|e|c]; cbn [obind];
         [|intros ->; reflexivity|intros ->; reflexivity].
       intros (st2 & -> & <- & Hstep2). cbn [lift].
-      pose proof (step_trans _ _ _ _ _ _ _ _ Hstep1 Hstep2) as Hstep.
+      pose proof (step_trans _ _ _ _ _ _ _ _ _ Hstep1 Hstep2) as Hstep.
       destruct st2 as [|[f t] [|e2 st2]]; cbn [map shp wp]; try reflexivity.
-      exists f, t. split; [reflexivity|]. split; [reflexivity|]. rewrite Est in Hstep. exact Hstep.
+      exists f, t. split; [reflexivity|]. split; [reflexivity|].
+      destruct Hstep as (A & I' & C & K). split; [exact A|]. split; [exact I'|]. split; [rewrite Est in C; exact C|exact K].
   Qed.
 
   Lemma push_all_sim R s0 srcs vs : forall (b : builder T) s,
     stk_inv s0 s srcs (bstack b) ->
     wp R (push_all ek b vs) (fun o s' =>
       match ppush_all (shb b) vs with
-      | Ok pb' => exists b', o = Ok b' /\ shb b' = pb' /\ step_ok s0 srcs s (wt (pstack (shb b))) s' (bstack b')
+      | Ok pb' => exists b', o = Ok b' /\ shb b' = pb' /\ step_ok s0 srcs s (wt (pstack (shb b))) (bstack b) s' (bstack b')
       | Err e => o = Err e
       | Panic c => o = Panic c
       end) s.
   Proof.
     induction vs as [|v vs IH]; intros b s Hinv; cbn [push_all ppush_all].
     - cbn [wp]. exists b. split; [reflexivity|]. split; [reflexivity|].
-      split; [apply ao_refl|]. split; [exact Hinv|reflexivity].
+      split; [apply ao_refl|]. split; [exact Hinv|]. split; [reflexivity|apply keeps_refl].
     - apply wp_bind. eapply wp_mono; [|apply push_sim; exact Hinv].
       intros o s1. destruct (ppush (shb b) v) as [pb1|e|c]; cbn [obind];
         [|intros ->; reflexivity|intros ->; reflexivity].
@@ -727,19 +771,21 @@ Section BuilderP.
   Definition iwt (items : list (level_node T)) : N :=
     fold_right (fun x a => match x with LInternal u => snodes (shape u) + a | LPackedLeaf _ => a end) 0 items.
 
+  Definition srcents (items : list (level_node T)) : list ent := map (fun u => (true, u)) (internal_nodes items).
+
   Lemma feed_sim R s0 srcs L items : forall (b : builder T) s,
     stk_inv s0 s srcs (bstack b) -> incl (internal_nodes items) srcs ->
     wp R (pop_front_feed ek items L b) (fun o s' =>
       match pfeed items L (shb b) with
       | Ok pb' => exists b', o = Ok b' /\ shb b' = pb' /\
-                    step_ok s0 srcs s (iwt items + wt (pstack (shb b))) s' (bstack b')
+                    step_ok s0 srcs s (iwt items + wt (pstack (shb b))) (srcents items ++ bstack b) s' (bstack b')
       | Err e => o = Err e
       | Panic c => o = Panic c
       end) s.
   Proof.
     induction items as [|[node|v] items IH]; intros b s Hinv Hincl; cbn [pop_front_feed pfeed].
     - cbn [wp]. exists b. split; [reflexivity|]. split; [reflexivity|].
-      split; [apply ao_refl|]. split; [exact Hinv|reflexivity].
+      split; [apply ao_refl|]. split; [exact Hinv|]. split; [reflexivity|apply keeps_refl].
     - apply wp_bind. eapply wp_mono; [|apply push_node_sim; [exact Hinv|apply Hincl; left; reflexivity]].
       intros o s1. destruct (ppush_node (shb b) (shape node) _) as [pb1|e|c]; cbn [obind];
         [|intros ->; reflexivity|intros ->; reflexivity].
@@ -747,9 +793,13 @@ Section BuilderP.
       eapply wp_mono; [|apply IH; [apply Hstep1|intros x Hx; apply Hincl; right; exact Hx]].
       intros o s2. destruct (pfeed items L (shb b1)) as [pb2|e|c]; auto.
       intros (b2 & -> & <- & Hstep2). exists b2. split; [reflexivity|]. split; [reflexivity|].
-      destruct Hstep1 as (A1 & I1 & C1). destruct Hstep2 as (A2 & I2 & C2).
+      destruct Hstep1 as (A1 & I1 & C1 & K1). destruct Hstep2 as (A2 & I2 & C2 & K2).
       split; [eapply ao_trans; eauto|]. split; [exact I2|].
-      revert C1 C2. cbn [iwt fold_right shb pstack]. fold (iwt items). lia.
+      split; [revert C1 C2; cbn [iwt fold_right shb pstack]; fold (iwt items); lia|].
+      eapply keeps_trans; [|exact K2]. eapply keeps_trans; [|apply keeps_app; exact K1].
+      apply keeps_incl. unfold srcents. cbn [internal_nodes flat_map app map]. fold (internal_nodes items).
+      intros x [<-|Hx]; [apply in_or_app; right; left; reflexivity|].
+      apply in_app_or in Hx. apply in_or_app. destruct Hx as [Hx|Hx]; [left; exact Hx|right; right; exact Hx].
     - apply wp_bind. eapply wp_mono; [|apply push_sim; exact Hinv].
       intros o s1. destruct (ppush (shb b) v) as [pb1|e|c]; cbn [obind];
         [|intros ->; reflexivity|intros ->; reflexivity].
@@ -757,9 +807,10 @@ Section BuilderP.
       eapply wp_mono; [|apply IH; [apply Hstep1|exact Hincl]].
       intros o s2. destruct (pfeed items L (shb b1)) as [pb2|e|c]; auto.
       intros (b2 & -> & <- & Hstep2). exists b2. split; [reflexivity|]. split; [reflexivity|].
-      destruct Hstep1 as (A1 & I1 & C1). destruct Hstep2 as (A2 & I2 & C2).
+      destruct Hstep1 as (A1 & I1 & C1 & K1). destruct Hstep2 as (A2 & I2 & C2 & K2).
       split; [eapply ao_trans; eauto|]. split; [exact I2|].
-      revert C1 C2. cbn [iwt fold_right shb pstack]. fold (iwt items). lia.
+      split; [revert C1 C2; cbn [iwt fold_right shb pstack]; fold (iwt items); lia|].
+      eapply keeps_trans; [|exact K2]. apply (keeps_app (srcents items)). exact K1.
   Qed.
 
 
@@ -1231,7 +1282,7 @@ Section BuilderP.
       - rewrite C. exact Hl. - rewrite C, D. reflexivity. - rewrite D. exact Hd. }
     intros o s2. rewrite Hfin.
     intros (f & t & -> & Hsh & Hstep2). exists t.
-    pose proof (step_trans _ _ _ _ _ _ _ _ Hstep1 Hstep2) as (A & (_ & I' & Hid) & Cn).
+    pose proof (step_trans _ _ _ _ _ _ _ _ _ Hstep1 Hstep2) as (A & (_ & I' & Hid) & Cn & _).
     split; [reflexivity|]. split; [exact Hsh|]. split; [exact A|].
     inversion I' as [|e1 l1 He1 _]; subst. split; [apply He1|].
     split; [exact (proj1 (Hid (srcs_ok_nil s)))|].
@@ -1543,7 +1594,8 @@ Section BuilderP.
        (fun o s' => exists t', o = Ok (t', d, lenN rest) /\ shape t' = canon ek d rest /\
                     alloc_only s s' /\ fresh_or_from s s' (internal_nodes items) t' /\
                     (idf (internal_nodes items) -> (forall u, In u (internal_nodes items) -> below (next s) u) ->
-                     idf (t' :: internal_nodes items))) s.
+                     idf (t' :: internal_nodes items)) /\
+                    (forall u, In u (internal_nodes items) -> subt u t')) s.
   Proof.
     intros d L items rest R s Hd Hcase HL IB Hl. rewrite builder_new_ok by exact Hd. cbn [bind].
     destruct (pfeed_finish d L items rest Hd Hcase HL IB Hl) as (pb & P & Hfin).
@@ -1552,10 +1604,15 @@ Section BuilderP.
     eapply wp_mono; [|apply (finish_sim R s (internal_nodes items)); apply Hstep1].
     intros o s2. rewrite Hfin.
     intros (f & t & -> & Hsh & Hstep2). exists t.
-    destruct Hstep1 as (A1 & _ & _). destruct Hstep2 as (A2 & (_ & I' & Hid) & _).
+    destruct Hstep1 as (A1 & _ & _ & K1). destruct Hstep2 as (A2 & (_ & I' & Hid) & _ & K2).
     split; [reflexivity|]. split; [exact Hsh|]. split; [eapply ao_trans; eauto|].
     inversion I' as [|e1 l1 He1 _]; subst. split; [apply He1|].
-    intros Hi Hb. exact (proj1 (Hid (conj Hi Hb))).
+    split; [intros Hi Hb; exact (proj1 (Hid (conj Hi Hb)))|].
+    intros u Hu.
+    assert (Hh: held (srcents items ++ []) u).
+    { exists (true, u). split; [apply in_or_app; left; unfold srcents; apply (in_map (fun x => (true, x))); exact Hu|].
+      split; [apply subt_refl|left; reflexivity]. }
+    destruct (K2 u (K1 u Hh)) as (e & [<-|[]] & Hs & _). exact Hs.
   Qed.
 
   Theorem feed_canon : forall (d L : nat) items rest R s, (d + pd_of ek <= 63)%nat ->
@@ -1641,7 +1698,19 @@ Section BuilderP.
   Proof.
     intros d L items rest R s Hd Hcase Hint HL IB Hl Hi Hb.
     eapply wp_mono; [|apply feed_canon_full; try eassumption; apply feed_case; assumption].
-    intros o s' (t & Ho & Hsh & A & Ff & Hid). exists t. repeat (split; [assumption|]). apply Hid; assumption.
+    intros o s' (t & Ho & Hsh & A & Ff & Hid & _). exists t. repeat (split; [assumption|]). apply Hid; assumption.
+  Qed.
+
+  (* every Internal item that was pushed survives as a subtree of the result *)
+  Theorem feed_canon_retain : forall (d L : nat) items rest R s, (d + pd_of ek <= 63)%nat ->
+    (L = O \/ (pd_of ek <= L)%nat) -> (L = O -> (0 < pd_of ek)%nat -> internal_nodes items = []) ->
+    (L <= d + pd_of ek)%nat -> items_blocks ek L items rest -> lenN rest <= cap ek d ->
+    wp R (b <- builder_new ek (N.of_nat d) (N.of_nat L) ;; b' <- pop_front_feed ek items L b ;; builder_finish ek b')
+       (fun o _ => forall t' d' n, o = Ok (t', d', n) -> forall u, In u (internal_nodes items) -> subt u t') s.
+  Proof.
+    intros d L items rest R s Hd Hcase Hint HL IB Hl.
+    eapply wp_mono; [|apply feed_canon_full; try eassumption; apply feed_case; assumption].
+    intros o s' (t & Ho & _ & _ & _ & _ & Hret) t' d' n E. rewrite Ho in E. injection E as <- _ _. exact Hret.
   Qed.
 
 End BuilderP.
@@ -1672,6 +1741,7 @@ Print Assumptions feed_canon.
 Print Assumptions feed_canon'.
 Print Assumptions build_canon_idf.
 Print Assumptions feed_canon_idf.
+Print Assumptions feed_canon_retain.
 Print Assumptions build_canon_full.
 Print Assumptions feed_canon_full.
 Print Assumptions build_canon_count.
